@@ -245,7 +245,10 @@ class Gen(object):
                 return str(inner.rng.randrange(-2, 6))
             return inner.rng.choice(sorted(d))
         inner.leaf = leaf
-        inner_da = inner.block(ind + '    ', fv | {'p', m}, 2, False, minlen=2)
+        # half of the closures only write the nonlocal (it is then neither live into nor out of their statements:
+        # only the `nonlocals` clause of _get_block_basic_vars keeps it in the state)
+        start = fv | {'p', m} if r.random() < 0.5 else fv | {'p'}
+        inner_da = inner.block(ind + '    ', start, 2, False, minlen=2)
         self.lines.extend(inner.lines)
         self.features |= set('nlclosure:' + f for f in inner.features)
         self.emit(ind + '    ', 'return %s' % inner.iexpr(inner_da, 1))
